@@ -415,6 +415,37 @@ def run(ctx):
                 else:
                     ctx.bad(rule, vname, 'elements after the tag are %s, variant fields are %s' % (gi, fields), where,
                             key='TABLE:%s:%s:fields' % (fn, vname))
+    # the catch-all arm hands back the tuple it was given: nothing in it may reorder or drop elements
+    ctx.rule('C08.3-generic-verbatim', 'in both serialisers the arm for ControlMessage::Generic performs no operation that reorders or removes elements of a vector (swap, reverse, rotate, sort, remove, swap_remove, pop, truncate, retain, dedup): '
+             'the fields of an unknown message go back out in the order they came in, behind the tag', floor=2)
+    REORDER = ('swap', 'reverse', 'rotate_left', 'rotate_right', 'sort', 'sort_by', 'sort_by_key', 'sort_unstable', 'swap_remove', 'remove', 'pop', 'truncate', 'retain', 'dedup', 'drain', 'split_off')
+    for fn, BB in (('to_term', Bt), ('into_term', Bi)):
+        if BB is None:
+            continue
+        region = None
+        gidx = [i for i, v in enumerate(ctx.F.adts[CM]['variants']) if v['n'] == 'Generic']
+        for sw in sorted(BB.live_blocks()):
+            sd = BB.switch_on_discr(sw)
+            if sd and sd[1] == CM and gidx:
+                tg = dict(sd[2]).get(gidx[0], sd[3])
+                others = set()
+                for v_, b_ in sd[2]:
+                    if b_ != tg:
+                        others |= BB.reachable(b_)
+                if sd[3] != tg:
+                    others |= BB.reachable(sd[3])
+                region = BB.reachable(tg) - others
+                break
+        if not region:
+            ctx.undecided('C08.3-generic-verbatim', fn, 'the arm for Generic was not located')
+            continue
+        offenders = [(bb, (callee_of(t)[0] or '')) for bb, t in BB.calls() if bb in region and (callee_of(t)[0] or '').rsplit('::', 1)[-1] in REORDER
+                     and ('Vec' in (callee_of(t)[0] or '') or 'slice' in (callee_of(t)[0] or ''))]
+        if offenders:
+            ctx.bad('C08.3-generic-verbatim', fn, '%s: the Generic arm calls %s on the element vector: the fields of an unknown (or unexpected-arity) message are written back in a different order / number than they were parsed'
+                    % (fn, offenders[0][1].rsplit('::', 1)[-1]), ctx.where(BB, offenders[0][0]), key='TABLE:%s:Generic:reorders' % fn)
+        else:
+            ctx.ok('C08.3-generic-verbatim', fn, 'no reordering or removing vector operation in the Generic arm (%d blocks)' % len(region), ctx.where(BB))
     ctx.rule('C08.3-ser-agree', 'to_term and into_term write the same tag for every variant', floor=30)
     for vname, d in ser_tag.items():
         if len(d) == 2:
